@@ -87,6 +87,86 @@ pub fn c15_soc3_scalar_part_pow2() {
     kani::cover!(az == amax && amax < 1.0, "alpha_max binds");
 }
 
+/// SOC, scalar part, EVERY finite f64 direction: from a point strictly inside (x0 > |x1|, x2 = 0: decidable without
+/// rounding) the step never carries the leading entry below zero, alpha <= fl(-x0/y0) whenever y0 < 0 - whatever
+/// the rounding of the discriminant b^2 - 4ac does (a direction through the apex makes it round negative, and the
+/// "complex roots -> alpha_max" branch is then bounded by the scalar part alone).  Any alpha that is safe in exact
+/// arithmetic satisfies alpha <= x0/|y0|, and rounding to nearest is monotone, so the bound is demanded of every
+/// correct implementation.
+#[kani::proof]
+#[kani::unwind(5)]
+pub fn c15_soc3_scalar_bound_interior() {
+    let mut c = SecondOrderCone::<f64>::new(3);
+    let x0: f64 = kani::any();
+    let x1: f64 = kani::any();
+    kani::assume(x0.is_finite() && x1.is_finite() && x0 > 0.0 && x1 < x0 && -x1 < x0);
+    let z = [x0, x1, 0.0];
+    let dz: [f64; 3] = kani::any();
+    kani::assume(dz[0].is_finite() && dz[1].is_finite() && dz[2].is_finite());
+    let amax = any_alpha_max();
+    let st = settings_f64();
+    let (az, as_) = c.step_length(&dz, &dz, &z, &z, &st, amax);
+    if dz[0] < 0.0 {
+        assert!(az <= -x0 / dz[0], "step_never_carries_the_leading_entry_below_zero");
+        assert!(as_ <= -x0 / dz[0], "slack_step_never_carries_the_leading_entry_below_zero");
+    }
+    kani::cover!(dz[0] < 0.0 && az < amax && az == -x0 / dz[0], "scalar part binds");
+    kani::cover!(dz[0] < 0.0 && az < -x0 / dz[0], "a root of the quadratic binds first");
+}
+
+/// SOC with a NONZERO tail: the quadratic has two distinct real roots and the step must be the smaller positive
+/// one - exactly.  x = (x0,0,0) strictly inside, y = (m*|y1|, tail y1 in position 1 or 2) with m in {-3, 0, 3}:
+///   m = -3: a = 8 y1^2 > 0, b < 0, roots x0/(4|y1|) < x0/(2|y1|), both positive -> the smaller one
+///           (the scalar-part bound x0/(3|y1|) lies between them, so it cannot mask a wrong root)
+///   m =  0: a = -y1^2 < 0, b = 0, roots -x0/|y1| and +x0/|y1| -> the positive one
+///   m = +3: a > 0, b > 0: both roots negative -> alpha_max
+///   m = -1: a = 0 exactly (direction on the boundary of -K), b < 0: the quadratic degenerates to the single root
+///           -c/b = x0/(2|y1|); the scalar-part bound x0/|y1| is twice as far (finding F4)
+/// every intermediate quantity is a small integer times a power of two, so each f64 operation of the real code
+/// is exact and the oracle is an equality.
+#[kani::proof]
+#[kani::unwind(5)]
+pub fn c15_soc3_two_roots_pow2() {
+    let mut c = SecondOrderCone::<f64>::new(3);
+    let x0 = pow2_signed(-60, 20);
+    let y1 = pow2_signed(-60, 20);
+    kani::assume(x0 > 0.0);
+    let ay1 = if y1 < 0.0 { -y1 } else { y1 };
+    let fam: u8 = kani::any();
+    kani::assume(fam < 4);
+    let y0 = if fam == 0 {
+        -3.0 * ay1
+    } else if fam == 1 {
+        0.0
+    } else if fam == 2 {
+        3.0 * ay1
+    } else {
+        -ay1
+    };
+    let z = [x0, 0.0, 0.0];
+    let dz = if kani::any() { [y0, y1, 0.0] } else { [y0, 0.0, y1] };
+    let amax = any_alpha_max();
+    let st = settings_f64();
+    let (az, as_) = c.step_length(&dz, &dz, &z, &z, &st, amax);
+    let root = if fam == 0 {
+        x0 / (4.0 * ay1)
+    } else if fam == 1 {
+        x0 / ay1
+    } else if fam == 2 {
+        f64::INFINITY
+    } else {
+        x0 / (2.0 * ay1)
+    };
+    let want = if root < amax { root } else { amax };
+    assert!(az == want, "step_is_the_smallest_positive_root_of_the_boundary_quadratic_or_alpha_max");
+    assert!(as_ == want, "slack_step_is_the_smallest_positive_root_or_alpha_max");
+    kani::cover!(fam == 0 && az < amax, "two positive roots, smaller one binds");
+    kani::cover!(fam == 1 && az < amax, "roots of opposite sign, positive one binds");
+    kani::cover!(fam == 2, "both roots negative");
+    kani::cover!(fam == 3 && az < amax, "degenerate quadratic: single root binds");
+    kani::cover!(fam == 0 && az == amax && amax < 1.0, "alpha_max binds");
+}
+
 /// NN cone, every f64: never above alpha_max; nonnegative from an interior point; no panic
 fn nn_range<const D: usize>() {
     let mut c = NonnegativeCone::<f64>::new(D);
